@@ -340,7 +340,9 @@ def compare(ex, op, a, b, st, ctx):
         if op in ("Eq", "NotEq") and (a is None or b is None or isinstance(a, str) or isinstance(b, str)):
             return op == "NotEq"
         ex.note_unmodelled(ctx, "comparison with opaque value")
-        return z3.Bool(fresh_name("cmp"))
+        r = z3.Bool(fresh_name("cmp"))
+        ex.cmp_log[str(r)] = (op, a, b)          # provenance: which values the unmodelled comparison was made between
+        return r
     if isinstance(a, Poly) or isinstance(b, Poly):
         pa, pb = to_poly(a), to_poly(b)
         if pa is not None and pb is not None:
